@@ -3,6 +3,7 @@ package main
 import (
 	"errors"
 	"fmt"
+	"runtime"
 	"strings"
 	"sync"
 	"sync/atomic"
@@ -129,7 +130,11 @@ type handle struct {
 	dead   chan struct{} // closed when the Terminate callback begins (unregisterProcess is over by then)
 	reason error
 	idx    int // claimer index inside a partition
+	// value and stack of a panic raised inside a closure run by inProc (read after dead is closed)
+	panicked string
 }
+
+var closurePanics atomic.Int64
 
 func (h *handle) isDead() bool {
 	select {
@@ -156,6 +161,16 @@ func newProc(label string) (gen.ProcessFactory, *handle) {
 		Msg: func(p *actors.Probe, from gen.PID, msg any) error {
 			switch m := msg.(type) {
 			case do:
+				// a panic inside the framework call of the closure is an observation: keep value and stack
+				defer func() {
+					if rcv := recover(); rcv != nil {
+						buf := make([]byte, 4096)
+						buf = buf[:runtime.Stack(buf, false)]
+						h.panicked = fmt.Sprintf("%v\n%s", rcv, buf)
+						closurePanics.Add(1)
+						panic(rcv)
+					}
+				}()
 				err := m.F(p)
 				close(m.Done)
 				return err
